@@ -393,8 +393,10 @@ class ExprMixin:
         fn = z3.Function("fp_%s_%s_%d" % (op, "_".join(str(o.sort().size()) for o in operands), w),
                          *([o.sort() for o in operands] + [z3.BitVecSort(w)]))
         r = fn(*operands)
-        self.fp_defs.add(len(self.facts))
+        n0 = len(self.facts)
         self.facts.append(z3.fpBVToFP(r, self.fp_sort(t)) == f)
+        if len(self.facts) > n0:
+            self.fp_defs.add(n0)
         return r
 
     # ------------------------------------------------------------ conversions
@@ -425,8 +427,10 @@ class ExprMixin:
             lo, hi = self.int_range_fp(tt, ft)
             inrange = z3.And(z3.Not(z3.fpIsNaN(f)), z3.fpGT(f, lo), z3.fpLT(f, hi))
             # out of range / NaN: implementation-defined result -> unconstrained
-            self.fp_defs.add(len(self.facts))
+            n0 = len(self.facts)
             self.facts.append(z3.Implies(inrange, r == conv))
+            if len(self.facts) > n0:
+                self.fp_defs.add(n0)
             return r
         if ft.is_string() and tu.k == "slice":
             return self.clone_bytes(st, v, tt.elem(), isstr=False)
